@@ -5,6 +5,7 @@ mako/codegen.py says *now*, as Lean constants:
 * `verifyDirMaxTries`  - the number of os.makedirs attempts after which util.verify_directory re-raises
 * `staleCmp`           - the comparison `os.stat(path)[ST_MTIME] <op> filemtime` of Template._compile_from_file
 * `missingCheck`       - `not os.path.exists(path) or ...` is present
+* `fileRecheck`        - the re-check after loading also fires on `module._template_filename != filename`
 * `magicRecheck`       - the `module._magic_number != codegen.MAGIC_NUMBER` re-check after loading is present
 * `writerOps`          - the sequence of file-system primitives of the non-hook branch of _compile_module_file
                          (mkstemp -> write -> close -> rename) read from its AST; the model's writer IS this list
@@ -151,16 +152,33 @@ def staleness(repo):
 
     if not writes(ifnode):
         raise RegenError("_compile_from_file: the stale branch does not (re)write the module file")
-    # the magic-number re-check: rewrite AND use the module loaded afterwards
+    # the re-check after loading: rewrite AND use the module loaded afterwards when
+    #   module._magic_number != codegen.MAGIC_NUMBER [or module._template_filename != filename]
     recheck = False
-    for n in ast.walk(fn):
-        if isinstance(n, ast.If) and isinstance(n.test, ast.Compare) and len(n.test.ops) == 1 \
-                and isinstance(n.test.ops[0], ast.NotEq):
-            names = {dotted(n.test.left), dotted(n.test.comparators[0])}
+    file_recheck = False
+
+    def disjunct(t):
+        if isinstance(t, ast.Compare) and len(t.ops) == 1 and isinstance(t.ops[0], ast.NotEq):
+            names = {dotted(t.left), dotted(t.comparators[0])}
             if names == {"module._magic_number", "codegen.MAGIC_NUMBER"}:
-                if writes(n) and module_rebound(n):
-                    recheck = True
-    return CMP[type(cmp_.ops[0])], missing, recheck
+                return "magic"
+            if names == {"module._template_filename", "filename"}:
+                return "file"
+        return None
+
+    for n in ast.walk(fn):
+        if not isinstance(n, ast.If):
+            continue
+        if isinstance(n.test, ast.BoolOp) and isinstance(n.test.op, ast.Or):
+            kinds = [disjunct(v) for v in n.test.values]
+        else:
+            kinds = [disjunct(n.test)]
+        if not kinds or any(k is None for k in kinds) or len(set(kinds)) != len(kinds):
+            continue
+        if writes(n) and module_rebound(n):
+            recheck = recheck or "magic" in kinds
+            file_recheck = file_recheck or "file" in kinds
+    return CMP[type(cmp_.ops[0])], missing, recheck, file_recheck
 
 
 # ----------------------------------------------------------------------------- _compile_module_file
@@ -319,7 +337,9 @@ def gen(repo):
     if '"_magic_number = %r" % MAGIC_NUMBER' not in cg:
         raise RegenError("codegen: `_magic_number = %r` % MAGIC_NUMBER is no longer emitted")
     tries = verify_dir_tries(repo)
-    cmp_, missing, recheck = staleness(repo)
+    cmp_, missing, recheck, file_recheck = staleness(repo)
+    if '"_template_filename = %a" % self.compiler.filename' not in cg and '"_template_filename = %r" % self.compiler.filename' not in cg:
+        raise RegenError("codegen: `_template_filename` is no longer emitted from compiler.filename")
     ops, loops, tmp_in_dir, hook_ok, close_on_raise, drops_bytecode = writer(repo)
     out = [HEADER % "mako/codegen.py, mako/util.py, mako/template.py (tools/regen_modfile.py)"]
     out.append("namespace MakoModel.Generated.ModFile\n")
@@ -336,6 +356,8 @@ def gen(repo):
                "def missingCheck : Bool := %s\n" % lean_bool(missing))
     out.append("/-- the `_magic_number != MAGIC_NUMBER` re-check (rewrite + reload) after loading is present -/\n"
                "def magicRecheck : Bool := %s\n" % lean_bool(recheck))
+    out.append("/-- the re-check also rewrites when `module._template_filename != filename` (generated from another file) -/\n"
+               "def fileRecheck : Bool := %s\n" % lean_bool(file_recheck))
     out.append("/-- the default branch of `_compile_module_file`, primitive by primitive -/\n"
                "def writerOps : List WOp := [%s]\n" % ", ".join("." + o for o in ops))
     out.append("/-- the write is repeated until every byte is written (os.write's result is looked at) -/\n"
